@@ -134,9 +134,6 @@ type ListConfig struct {
 	IndentLevel  int        // 缩进级别（0-8）
 }
 
-// 全局编号管理器
-var globalNumberingManager *NumberingManager
-
 // NumberingManager 编号管理器
 type NumberingManager struct {
 	nextAbstractNumID int
@@ -145,17 +142,38 @@ type NumberingManager struct {
 	numInstances      map[string]*NumInstance
 }
 
-// getNumberingManager 获取全局编号管理器
-func getNumberingManager() *NumberingManager {
-	if globalNumberingManager == nil {
-		globalNumberingManager = &NumberingManager{
+// getNumberingManager 获取文档自己的编号管理器（按需创建）。
+// 每个文档拥有独立的管理器：编号定义和编号ID不会在文档之间共享。
+func (d *Document) getNumberingManager() *NumberingManager {
+	if d.numberingManager == nil {
+		d.numberingManager = &NumberingManager{
 			nextAbstractNumID: 0,
 			nextNumID:         1,
 			abstractNums:      make(map[string]*AbstractNum),
 			numInstances:      make(map[string]*NumInstance),
 		}
 	}
-	return globalNumberingManager
+	return d.numberingManager
+}
+
+// clone 返回管理器的独立副本（编号定义创建后不再修改，可以共享）
+func (m *NumberingManager) clone() *NumberingManager {
+	if m == nil {
+		return nil
+	}
+	c := &NumberingManager{
+		nextAbstractNumID: m.nextAbstractNumID,
+		nextNumID:         m.nextNumID,
+		abstractNums:      make(map[string]*AbstractNum, len(m.abstractNums)),
+		numInstances:      make(map[string]*NumInstance, len(m.numInstances)),
+	}
+	for k, v := range m.abstractNums {
+		c.abstractNums[k] = v
+	}
+	for k, v := range m.numInstances {
+		c.numInstances[k] = v
+	}
+	return c
 }
 
 // AddListItem 添加列表项
@@ -288,7 +306,7 @@ func (d *Document) initializeNumbering() {
 
 // getOrCreateNumbering 获取或创建编号定义
 func (d *Document) getOrCreateNumbering(config *ListConfig) string {
-	manager := getNumberingManager()
+	manager := d.getNumberingManager()
 
 	// 生成抽象编号键
 	abstractKey := fmt.Sprintf("%s_%s_%d_%d", config.Type, config.BulletSymbol, config.IndentLevel, config.StartNumber)
@@ -384,7 +402,7 @@ func (d *Document) createLevel(levelIndex int, config *ListConfig) *Level {
 
 // updateNumberingFile 更新编号定义文件
 func (d *Document) updateNumberingFile() {
-	manager := getNumberingManager()
+	manager := d.getNumberingManager()
 
 	numbering := &Numbering{
 		Xmlns:              "http://schemas.openxmlformats.org/wordprocessingml/2006/main",
@@ -431,7 +449,7 @@ func (d *Document) addNumberingRelationship() {
 func (d *Document) RestartNumbering(numID string) {
 	// 重置编号计数器
 	// 在实际实现中，需要创建新的编号实例来重置计数
-	manager := getNumberingManager()
+	manager := d.getNumberingManager()
 
 	// 创建新的编号实例
 	newNumID := strconv.Itoa(manager.nextNumID)
